@@ -274,8 +274,8 @@ def run_hist(case):
 
 
 def legs(tier):
-    return [Leg('align', _case_align(), run_align, 2000, 80000, max_shrink_buckets=8),
-            Leg('history', _case_hist(), run_hist, 600, 24000)]
+    return [Leg('align', _case_align(), run_align, 8000, 80000, max_shrink_buckets=8),
+            Leg('history', _case_hist(), run_hist, 2400, 24000)]
 
 
 REGIONS = {}
